@@ -210,7 +210,18 @@ func tabFor(z []byte, badManifest, badCTypes [][]byte) string {
 	for _, b := range badCTypes {
 		add("CX:" + hx.Hex(b))
 	}
+	if f41Fixed() {
+		add("F41")
+	}
 	return sb.String()
+}
+
+// f41Fixed: the source in $VERIF_REPO carries the repair of F41 (patches/appx2-f41-blockmap-bundle-only.patch): blockMap.AddFile
+// leaves *.appx members out of the block map only in bundles.  Read from the source text, never from the behaviour; the
+// model is asked for the version of AddFile that is there (Codec.f41).
+func f41Fixed() bool {
+	b, err := os.ReadFile(filepath.Join(repoDir(), "lib", "signappx", "blockmap.go"))
+	return err == nil && bytes.Contains(b, []byte("b.isBundle && strings.HasSuffix(f.Name, \".appx\")"))
 }
 
 // ---------------------------------------------------------------------------------------------
